@@ -289,6 +289,8 @@ def resolve(name, n):
     if name == 'bm':
         mask = [j % 2 == 0 for j in range(n)]
         return mask, [j for j in range(n) if mask[j]], 'fancy'
+    if name == 'bmT':      # all-True mask: still advanced indexing, the result must not alias the parent
+        return [True] * n, list(range(n)), 'fancy'
     raise KeyError(name)
 
 
@@ -346,7 +348,7 @@ def static_ops():
           {'op': 'extend', 'name': 'atoms_extend-B2-scaled-symbols', 'via': 'system', 'what': 'B2', 'scale': True,
            'symbols': ['Al', 'Ni', 'Cu']}]
     # sub-system extraction (the history continues on the returned object)
-    for idx in ('im1', 'sl', 'bm'):
+    for idx in ('im1', 'sl', 'bm', 'bmT'):
         o.append({'op': 'getitem', 'name': 'getitem-' + idx, 'via': 'atoms', 'idx': idx})
     for idx in IDX:
         o.append({'op': 'getitem', 'name': 'atoms_ix-get-' + idx, 'via': 'ix', 'idx': idx})
